@@ -34,3 +34,19 @@ Definition fstep_pinned (s : fstate) (e : fev_pinned) : fstate :=
   | PJoinAlloc p a => if zmem a (used s) then s else {| used := a :: used s; held := (p, a) :: held s |}
   | PCreatorWrite => {| used := [1]; held := held s |}                          (* b'\2' + 63 zero bytes over whatever is there *)
   end.
+
+(* why the lock matters for removals too: a removal is read-modify-write of one map byte.  Without mutual exclusion against
+   allocations it splits into a read (snapshot of the byte, here of the whole map) and a write of the snapshot minus the own bit *)
+Inductive fev_split := SAlloc (p a : Z) | SRelRead (p : Z) | SRelWrite (p : Z).
+Record sstate := { s_f : fstate; s_snap : list (Z * list Z) }.
+Definition sstep (s : sstate) (e : fev_split) : sstate :=
+  match e with
+  | SAlloc p a => {| s_f := fstep (s_f s) (Alloc p a); s_snap := s_snap s |}
+  | SRelRead p => {| s_f := s_f s; s_snap := (p, used (s_f s)) :: s_snap s |}
+  | SRelWrite p =>
+      match find (fun h => fst h =? p) (held (s_f s)), find (fun h => fst h =? p) (s_snap s) with
+      | Some (_, a), Some (_, snap) =>
+          {| s_f := {| used := filter (fun x => negb (x =? a)) snap; held := filter (fun h => negb (fst h =? p)) (held (s_f s)) |}; s_snap := s_snap s |}
+      | _, _ => s
+      end
+  end.
